@@ -164,7 +164,7 @@ class ImmutableKnotVector(tuple):
         except TypeError:
             return False
         umin, umax = self.limits
-        if node < umin or umax < node:
+        if not (umin <= node <= umax):
             return False
         return True
 
